@@ -321,10 +321,36 @@ def boundary_scripts(path):
                 acts += [dict(name=reader, e=2, a=70000)] * (len(train) + 1)
                 acts += [dict(name="Flush", e=2), dict(name="Tick", a=10)]
                 scripts.append(dict(meta=dict(cfg=cfg, label="forged-frg-%d%s-%s" % (ti, "-stream" if stream else "", reader), forged=True), actions=acts))
+    # Family 'probe-pack': one flush that has to reserve room three times in the same buffer -- k pending acknowledgements that
+    # leave the buffer one header short of full (k = mtu/24 - 1), a window probe of its own (the peer's window has been zero for
+    # longer than the probe wait) AND the answer to the peer's probe. Every size handed to the output callback must stay <= mtu.
+    def seg(cmd, dsn=0, ln=0):
+        return dict(name="Forge", e=1, f=dict(cmd=cmd, frg=0, wnd=0, dts=0, dsn=dsn, duna=0, len=ln, bad=0))
+    for mtu in (56, 80, 100, 124, 150):
+        per = mtu // 24
+        for k in sorted({per - 1, per, 2 * per - 1, 1}):
+            if k >= 2 * per:
+                continue
+            for order in (0, 1):
+                cfg = dict(mtu=mtu, sndwnd=32, rcvwnd=32, nodelay=0, interval=100, resend=0, nc=1, stream=1, acknodelay=0)
+                acts = [seg(84), dict(name="Flush", e=1), dict(name="Tick", a=520)]
+                pushes = [seg(81, dsn=1 + i, ln=1) for i in range(k)]       # out of order (a hole in front): their acks are not filtered
+                acts += (pushes + [seg(83)]) if order == 0 else ([seg(83)] + pushes)
+                acts += [dict(name="Flush", e=1), dict(name="Tick", a=100), dict(name="Flush", e=1)]
+                scripts.append(dict(meta=dict(cfg=cfg, label="probe-pack-%d-%d" % (mtu, k), forged=True), actions=acts))
     with open(path, "w") as f:
         for sc in scripts:
             f.write(json.dumps(sc) + "\n")
     return len(scripts)
+
+
+def scripts_stage(v, scr, prop, invariants):
+    """The boundary scripts on two real KCP objects, validated against KcpCore.tla (drift) and judged by the given monitors."""
+    ind, outd = scr.sub("scripts-in"), scr.sub("scripts-out")
+    v.notes["boundary_scripts"] = boundary_scripts(os.path.join(ind, "core_scripts.ndjson"))
+    go_core(scr, "TestCoreScripts$", dict(VERIF_IN=ind, VERIF_OUT=outd))
+    summarize(v, outd, ["core_scripts"])
+    validate_traces(v, scr, prop, os.path.join(outd, "core_scripts.ndjson"), "core_scripts", invariants, None, conformance=True)
 
 
 def sample_behaviour(path):
